@@ -396,3 +396,19 @@ Proof.
     - rewrite in_app_iff. simpl. tauto. }
   intros s o1 o2 x He. unfold os_or, os_init, os_ior. rewrite !Hin, !in_app_iff, He. tauto.
 Qed.
+
+(* ------------------------------------------------------------------ __reversed__ *)
+(* as implemented it yields the first key only ... *)
+Theorem os_reversed_first_only : forall s, os_reversed s = match s with [] => [] | x :: _ => [x] end.
+Proof. destruct s; reflexivity. Qed.
+
+(* ... which is not the reverse of the iteration order *)
+Theorem os_reversed_refuted : exists s, NoDup s /\ os_reversed s <> rev (os_iter s).
+Proof.
+  exists [1; 2]. split.
+  - constructor; [simpl; intros [H|[]]; discriminate|]. constructor; [simpl; tauto|constructor].
+  - vm_compute. discriminate.
+Qed.
+
+Theorem os_reversed_fixed_correct : forall s, os_reversed_fixed s = rev (os_iter s).
+Proof. reflexivity. Qed.
